@@ -278,7 +278,7 @@ class Snapshot:
         self.ghost = {k: (list(v) if isinstance(v, list) else (dict(v) if isinstance(v, dict) else v)) for k, v in st.ghost.items()}
 
     def get(self, ref, field):
-        return self.heap[ref.oid][field]
+        return self.heap.get(ref.oid, {}).get(field)
 
     def bytes(self, ref):
         return self.mem[ref.ident]
